@@ -34,6 +34,7 @@ type dec struct {
 	ok     bool     // dAssert: obligation was discharged
 	lvl    int      // solver level before this entry was processed
 	big    bool     // dConc: the chosen value stands for "all values above the cap"
+	altModel map[string]uint64 // dBranch: a model of the false side (reused after backtracking)
 }
 
 // pathEnd is the host panic used to abandon the current path.
@@ -117,7 +118,8 @@ type Exec struct {
 	Assumes    map[string]bool
 	deadline   time.Time
 	TimedOut   bool
-	modelCache map[string]uint64
+	model      map[string]uint64 // a model of the current path condition (nil: unknown)
+	ModelHits  int
 }
 
 type Config struct {
@@ -206,6 +208,7 @@ func (ex *Exec) Run() {
 func (ex *Exec) runPath() {
 	ex.pos = 0
 	ex.st = ex.newState()
+	ex.model = nil
 	ex.C.Paths++
 	defer func() {
 		ex.C.Instrs += ex.st.instrs
@@ -321,6 +324,31 @@ func (ex *Exec) pushAssert(d *dec, c *term.T) {
 	d.pushed = true
 }
 
+// evalModel evaluates c under the cached model of the path condition.
+func (ex *Exec) evalModel(c *term.T) (bool, bool) {
+	if ex.model == nil {
+		return false, false
+	}
+	v, ok := term.Eval(c, ex.model, nil)
+	if !ok {
+		return false, false
+	}
+	return v != 0, true
+}
+
+// checkSide decides feasibility of pc AND c; on sat the model is returned.
+func (ex *Exec) checkSide(c *term.T) (smt.Result, map[string]uint64) {
+	r, vals := ex.Solver.CheckWith([]*term.T{c}, ex.st.inputs)
+	if r != smt.Sat {
+		return r, nil
+	}
+	m := make(map[string]uint64, len(ex.st.inputs))
+	for _, in := range ex.st.inputs {
+		m[in.Name] = vals[in.ID]
+	}
+	return r, m
+}
+
 // Branch decides a symbolic condition, forking when both sides are feasible.
 func (ex *Exec) Branch(c *term.T) bool {
 	if c.IsConst() {
@@ -339,13 +367,29 @@ func (ex *Exec) Branch(c *term.T) bool {
 		}
 		if d.nalts == 2 && !d.pushed {
 			ex.pushAssert(d, cc)
+			if !taken && d.altModel != nil {
+				ex.model = d.altModel
+			}
 		}
 		ex.st.pc = append(ex.st.pc, cc)
 		return taken
 	}
 	d := &dec{kind: dBranch, cond: c, lvl: ex.Solver.Level()}
-	rt, _ := ex.Solver.CheckWith([]*term.T{c}, nil)
-	rf, _ := ex.Solver.CheckWith([]*term.T{term.Not(c)}, nil)
+	var rt, rf smt.Result
+	var mt, mf map[string]uint64
+	if v, ok := ex.evalModel(c); ok {
+		ex.ModelHits++
+		if v {
+			rt, mt = smt.Sat, ex.model
+			rf, mf = ex.checkSide(term.Not(c))
+		} else {
+			rf, mf = smt.Sat, ex.model
+			rt, mt = ex.checkSide(c)
+		}
+	} else {
+		rt, mt = ex.checkSide(c)
+		rf, mf = ex.checkSide(term.Not(c))
+	}
 	if rt == smt.Unknown || rf == smt.Unknown {
 		ex.C.UnknownBr++
 	}
@@ -354,6 +398,7 @@ func (ex *Exec) Branch(c *term.T) bool {
 	case ft && ff:
 		d.nalts = 2
 		d.choice = 0
+		d.altModel = mf
 		ex.C.BranchForks++
 	case ft:
 		d.nalts = 1
@@ -371,6 +416,11 @@ func (ex *Exec) Branch(c *term.T) bool {
 	cc := c
 	if !taken {
 		cc = term.Not(c)
+	}
+	if taken {
+		ex.model = mt
+	} else {
+		ex.model = mf
 	}
 	if d.nalts == 2 {
 		ex.pushAssert(d, cc)
@@ -405,13 +455,18 @@ func (ex *Exec) Assume(c *term.T) {
 	d := &dec{kind: dAssume, cond: c, lvl: ex.Solver.Level()}
 	ex.trace = append(ex.trace, d)
 	ex.pos++
-	r, _ := ex.Solver.CheckWith([]*term.T{c}, nil)
-	if r == smt.Unsat {
-		d.ok = false
-		ex.endPath("assume")
-	}
-	if r == smt.Unknown {
-		ex.C.UnknownBr++
+	if v, ok := ex.evalModel(c); ok && v {
+		ex.ModelHits++
+	} else {
+		r, m := ex.checkSide(c)
+		if r == smt.Unsat {
+			d.ok = false
+			ex.endPath("assume")
+		}
+		if r == smt.Unknown {
+			ex.C.UnknownBr++
+		}
+		ex.model = m
 	}
 	d.ok = true
 	ex.pushAssert(d, c)
@@ -554,6 +609,9 @@ func (ex *Exec) Concretize(t *term.T, what string) uint64 {
 	ex.trace = append(ex.trace, d)
 	ex.pos++
 	c := term.Eq(t, term.Const(v, t.W))
+	if mv, ok := ex.evalModel(c); !ok || !mv {
+		ex.model = nil
+	}
 	ex.pushAssert(d, c)
 	ex.st.pc = append(ex.st.pc, c)
 	return v
